@@ -1,14 +1,16 @@
 #!/bin/bash
-# tools/matrix.sh : run every seeded change against the check of its own property (quick tier); results in /verif/seeded/matrix.txt
+# tools/matrix.sh [glob] [outfile] : run seeded changes against the check of their own property (quick tier)
 cd /verif
-: > seeded/matrix.txt
-for d in seeded/C*_a*; do
+PAT=${1:-'C*_a*'}; OUT=${2:-seeded/matrix.txt}
+: > $OUT
+for d in seeded/$PAT; do
   sid=$(basename $d); prop=${sid%%_*}
   s=$(date +%s)
   out=$(LINES_OUT=40 timeout 1500 tools/mut.sh $d/patch.diff $prop quick 2>&1)
   rc=$(echo "$out" | grep -o "exit=[0-9]*" | tail -1)
   viol=$(echo "$out" | grep "obligation=" | head -1 | cut -c1-220)
+  [ -z "$viol" ] && viol=$(echo "$out" | grep -E "INCONCLUSIVE|HARNESS-ERROR|MODEL-ERROR" | head -1 | cut -c1-220)
   e=$(date +%s)
-  echo "$sid check=$prop $rc $((e-s))s | $viol" | tee -a seeded/matrix.txt
+  echo "$sid check=$prop $rc $((e-s))s | $viol" | tee -a $OUT
   git -C /repo checkout -- . 2>/dev/null
 done
